@@ -158,6 +158,8 @@ impl<'w> Events<'w> {
     ) -> Poll<Option<io::Result<&'w notify::Event>>> {
         let this = &mut *self;
         loop {
+            #[cfg(a10_verif)]
+            crate::verif::point(crate::verif::Point::DecodeLoop, &raw const this.state);
             match &mut this.state {
                 EventsState::Processing { buf, processed, .. } => {
                     if buf.len() > *processed {
